@@ -38,11 +38,14 @@ def prime():
     _ts(x).correlate(x[:3])
 
 
-def _ts(x):
+TSAMPS = [1e-3, 64e-6, 81.92e-6, 1e-4, 5e-5, 0.000327, 0.1, 2.0**-10, 163.84e-6, 1.0]
+
+
+def _ts(x, tsamp=1e-3):
     from sigpyproc.header import Header
     from sigpyproc.timeseries import TimeSeries
 
-    hdr = Header(filename="t.tim", data_type="time series", nchans=1, foff=-1.0, fch1=1400.0, nbits=32, tsamp=1e-3,
+    hdr = Header(filename="t.tim", data_type="time series", nchans=1, foff=-1.0, fch1=1400.0, nbits=32, tsamp=tsamp,
                  tstart=55000.0, nsamples=len(x))
     return TimeSeries(x, hdr)
 
@@ -77,8 +80,10 @@ def check(case, ctx):
     from vlib.strategies import relayout
 
     lay = ["C", "strided_view", "reversed_view"][case["seed"] % 3]
-    ts = _ts(relayout(x, lay))
-    ctxt = f"n={n} m={m} kind={kind} seed={case['seed']} layout={lay}"
+    # the sampling interval is metadata: the transforms are defined on the samples, whatever the header says
+    tsamp = TSAMPS[(case["seed"] // 3) % len(TSAMPS)]
+    ts = _ts(relayout(x, lay), tsamp)
+    ctxt = f"n={n} m={m} kind={kind} seed={case['seed']} layout={lay} tsamp={tsamp!r}"
 
     def call(name, fn):
         try:
@@ -155,7 +160,7 @@ def check(case, ctx):
     require(cr.header.nsamples == Lc, "correlate:header-nsamples")
     # correlating with a TimeSeries operand gives the same answer as with the raw array - also when the same
     # operand object is used again (operands are inputs: they must not be modified)
-    yt = _ts(y.copy())
+    yt = _ts(y.copy(), tsamp)
     cr2 = call("correlate", lambda: ts.correlate(yt))
     require(np.array_equal(cr2.data, cr.data), "correlate:operand-type-dependent", ctxt)
     cr3 = call("correlate", lambda: ts.correlate(yt))
